@@ -62,9 +62,14 @@ Filter(q, P(_)) == SelectSeq(q, P)
 ---------------------------------------------------------------------------
 (* the Terrapin rule (C04) *)
 Marker(c) == IF c.role = "client" THEN SeqContains(c.kex, STRICT_C) ELSE SeqContains(c.kex, STRICT_S)
-ChaChas(c) == Filter(c.enc, IsChaCha)
-CBCs(c)    == Filter(c.enc, IsCBC)
-ETMs(c)    == Filter(c.mac, IsETM)
+\* The lists the rule reads are those of the direction in which the audited party sends: a server's server-to-client lists
+\* (the ones the report shows), a client's client-to-server lists.  They differ from the displayed lists only for a client
+\* whose KEXINIT names different algorithms per direction (RFC 4253 7.1 allows it); the case then carries them as tenc / tmac.
+TEnc(c) == IF "tenc" \in DOMAIN c THEN c.tenc ELSE c.enc
+TMac(c) == IF "tmac" \in DOMAIN c THEN c.tmac ELSE c.mac
+ChaChas(c) == Filter(TEnc(c), IsChaCha)
+CBCs(c)    == Filter(TEnc(c), IsCBC)
+ETMs(c)    == Filter(TMac(c), IsETM)
 Pairing(c) == CBCs(c) # <<>> /\ ETMs(c) # <<>>
 VulnEnc(c) == ChaChas(c) \o (IF Pairing(c) THEN CBCs(c) ELSE <<>>)
 VulnMac(c) == IF Pairing(c) THEN ETMs(c) ELSE <<>>
